@@ -39,7 +39,16 @@ class Rng:
     M = (1 << 64) - 1
 
     def __init__(self, seed):
-        self.s = (seed * 0x9E3779B97F4A7C15 + 0x1234567) & self.M
+        # the state is a hash of the seed (two rounds of the SplitMix64 output function), so that the streams of
+        # consecutive seeds are unrelated (seeding with seed * GAMMA made the stream of seed k+1 the stream of
+        # seed k shifted by one)
+        z = (seed ^ 0x6A09E667F3BCC909) & self.M
+        for _ in range(2):
+            z = (z + 0x9E3779B97F4A7C15) & self.M
+            z = ((z ^ (z >> 30)) * 0xBF58476D1CE4E5B9) & self.M
+            z = ((z ^ (z >> 27)) * 0x94D049BB133111EB) & self.M
+            z = z ^ (z >> 31)
+        self.s = z
 
     def next(self):
         self.s = (self.s + 0x9E3779B97F4A7C15) & self.M
